@@ -7,6 +7,10 @@ CHECKS = {
   text="Generated-input search: grammar-derived conforming streams (G_conf) through all five check modes, in-process (one validator per link) and through the real CLI with mute / -E variants, file and stdin; any error message, non-zero error total or non-zero exit is a violation. Exploration is the right level: the space of conforming streams is infinite and the oracle is a validity predicate.",
   note="Trusted base: the independent G_conf grammar (harness/src/gen.rs, model.rs, alpide.rs) encodes the documented protocol; CLI = repository release profile without LTO.",
   technique="property-based testing: grammar-based generation (proptest-driven choice tape) + validity oracle (zero errors), delta-debugging shrinker"),
+ "C03": dict(
+  text="Generated-input search over well-framed streams with arbitrary header values: the scanner (in-process, seek and read-discard readers, payload loaded/skipped) and the real CLI (`view rdh`, data view; file and stdin) must visit exactly the chained RDHs, once, in order, with true offsets, independently decoded field values and exact payload bytes, under every filter kind. Differential against an independent chain walker.",
+  note="Trusted base: independent RDH decoder / chain walker / filter predicate in harness/src/model.rs; domain = well-framed inputs whose first RDH0 passes the documented pre-check.",
+  technique="property-based testing: differential oracle (independent reference walker) over generated well-framed streams"),
  "C04": dict(
   text="Generated-input search for crashes and hangs: structure-aware mutations of conforming streams, random bytes, well-framed arbitrary streams and edited repository files, each under a random valid command line, on the real release CLI; oracle = terminates by itself, no panic/abort/signal, exit in {0,1,n}. Confirmed findings are keyed by panic site and recorded, so the search continues behind them.",
   note="Trusted base: watchdog rule (a hang needs 3 x 60 s confirmation); only option combinations accepted by clap/validate_args; debug assertions are off as in the shipped binary.",
